@@ -43,26 +43,40 @@ theorem finish_spec (h : Heap) (w : WF h) :
 
 def tag (e : Ev) : Op × Nat := (e.op, e.idx)
 
-theorem pass2_log (dfr : List Nat) : ∀ h : Heap, (pass2 h dfr).2.map tag = dfr.map (fun i => (Op.pop, i)) := by
+/-- no pop of the batch has a throwing element assignment -/
+def NoPopThrow (ops : List (Op × Nat)) : Prop := ∀ p ∈ ops, p.1 ≠ .pop true
+
+theorem pass2_log (dfr : List (Nat × Bool)) : (∀ p ∈ dfr, p.2 = false) → ∀ h : Heap,
+    (pass2 h dfr).log.map tag = dfr.map (fun p => (Op.pop p.2, p.1)) := by
   induction dfr with
-  | nil => intro h; rfl
-  | cons i rest ih =>
-    intro h
-    simp only [pass2]
+  | nil => intro _ h; rfl
+  | cons p rest ih0 =>
+    intro hnt h
+    have ih := ih0 (fun q hq => hnt q (List.mem_cons_of_mem _ hq))
+    obtain ⟨i, thr⟩ := p
+    have hthr : thr = false := hnt (i, thr) (by simp)
+    subst hthr
+    simp only [pass2, Bool.false_eq_true, if_false]
     split
     · simp [tag, ih]
     · split <;> simp [tag, ih]
 
-theorem pass1_log (ops : List (Op × Nat)) : ∀ h : Heap,
-    ((pass1 h ops).2.1.map tag ++ (pass1 h ops).2.2.map (fun i => (Op.pop, i))).Perm ops := by
+theorem pass1_log (ops : List (Op × Nat)) : NoPopThrow ops → ∀ h : Heap,
+    ((pass1 h ops).log.map tag ++ (pass1 h ops).dfr.map (fun p => (Op.pop p.2, p.1))).Perm ops := by
   induction ops with
-  | nil => intro h; simp [pass1]
-  | cons o rest ih =>
-    intro h
+  | nil => intro _ h; simp [pass1]
+  | cons o rest ih0 =>
+    intro hnt h
+    have ih := ih0 (fun q hq => hnt q (List.mem_cons_of_mem _ hq))
     obtain ⟨op, i⟩ := o
     cases op with
-    | pop =>
-      simp only [pass1]
+    | pop thr =>
+      have hthr : thr = false := by
+        cases thr with
+        | false => rfl
+        | true => exact absurd rfl (hnt (.pop true, i) (by simp))
+      subst hthr
+      simp only [pass1, Bool.false_eq_true, if_false]
       split
       · simpa [tag] using ih _
       · have := ih h
@@ -73,45 +87,58 @@ theorem pass1_log (ops : List (Op × Nat)) : ∀ h : Heap,
       simp only [pass1]
       split <;> simpa [tag] using ih _
 
-theorem handleIdx_log (h : Heap) (ops : List (Op × Nat)) : ((handleIdx h ops).2.map tag).Perm ops := by
-  simp only [handleIdx, List.map_append, pass2_log]
-  exact pass1_log ops h
-
 /-! ### linearization -/
 
 theorem heapPart_full (h : Heap) (hf : h.mark = h.data.length) : heapPart h = h.data ∧ pend h = [] := by
   simp [heapPart, pend, hf]
 
-/-- value-level linearization of a whole batch -/
-theorem handleIdx_lin_strip (h : Heap) (ops : List (Op × Nat)) (w : WF h) (hf : h.mark = h.data.length) :
-    ∃ lin sf, lin.Perm (strip (handleIdx h ops).2) ∧ specRun h.data lin = some sf ∧
-      sf.Perm (handleIdx h ops).1.data := by
+/-- without a throwing pop assignment `handle_operations` runs to its end -/
+theorem handleIdx_eq (h : Heap) (ops : List (Op × Nat)) (hnt : NoPopThrow ops) (w : WF h) (hf : h.mark = h.data.length) :
+    handleIdx h ops = ⟨finish (pass2 (pass1 h ops).heap (pass1 h ops).dfr).heap,
+      (pass1 h ops).log ++ (pass2 (pass1 h ops).heap (pass1 h ops).dfr).log, none⟩ := by
   obtain ⟨hp, hpe⟩ := heapPart_full h hf
-  obtain ⟨lin1, s1, hrun1, hsim1, hp1⟩ := pass1_lin ops h h.data ⟨w, by rw [hp]⟩
-  obtain ⟨lin2, s2, hrun2, hsim2, hp2⟩ := pass2_lin (pass1 h ops).2.2 (pass1 h ops).1 s1 hsim1
+  obtain ⟨lin1, s1, hrun1, hsim1, hab1, hdf1, hp1⟩ := pass1_lin ops hnt h h.data ⟨w, by rw [hp]⟩
+  obtain ⟨lin2, s2, hrun2, hsim2, hab2, hp2⟩ := pass2_lin (pass1 h ops).dfr hdf1 (pass1 h ops).heap s1 hsim1
+  simp only [handleIdx, hab1, hab2]
+
+theorem handleIdx_log (h : Heap) (ops : List (Op × Nat)) (hnt : NoPopThrow ops) (w : WF h) (hf : h.mark = h.data.length) :
+    ((handleIdx h ops).log.map tag).Perm ops ∧ (handleIdx h ops).abort = none := by
+  obtain ⟨hp, hpe⟩ := heapPart_full h hf
+  obtain ⟨lin1, s1, hrun1, hsim1, hab1, hdf1, hp1⟩ := pass1_lin ops hnt h h.data ⟨w, by rw [hp]⟩
+  rw [handleIdx_eq h ops hnt w hf]
+  simp only [List.map_append, pass2_log _ hdf1]
+  exact ⟨pass1_log ops hnt h, trivial⟩
+
+/-- value-level linearization of a whole batch -/
+theorem handleIdx_lin_strip (h : Heap) (ops : List (Op × Nat)) (hnt : NoPopThrow ops) (w : WF h) (hf : h.mark = h.data.length) :
+    ∃ lin sf, lin.Perm (strip (handleIdx h ops).log) ∧ specRun h.data lin = some sf ∧
+      sf.Perm (handleIdx h ops).heap.data := by
+  obtain ⟨hp, hpe⟩ := heapPart_full h hf
+  obtain ⟨lin1, s1, hrun1, hsim1, hab1, hdf1, hp1⟩ := pass1_lin ops hnt h h.data ⟨w, by rw [hp]⟩
+  obtain ⟨lin2, s2, hrun2, hsim2, hab2, hp2⟩ := pass2_lin (pass1 h ops).dfr hdf1 (pass1 h ops).heap s1 hsim1
   obtain ⟨wfin, _, hfin⟩ := finish_spec _ hsim2.1
-  refine ⟨lin1 ++ lin2 ++ pushes (pend (pass2 (pass1 h ops).1 (pass1 h ops).2.2).1),
-    (pend (pass2 (pass1 h ops).1 (pass1 h ops).2.2).1).reverse ++ s2, ?_, ?_, ?_⟩
+  rw [handleIdx_eq h ops hnt w hf]
+  refine ⟨lin1 ++ lin2 ++ pushes (pend (pass2 (pass1 h ops).heap (pass1 h ops).dfr).heap),
+    (pend (pass2 (pass1 h ops).heap (pass1 h ops).dfr).heap).reverse ++ s2, ?_, ?_, ?_⟩
   · rw [hpe] at hp1
-    simp only [handleIdx, strip, List.map_append, pushes, List.map_nil, List.nil_append] at *
+    simp only [strip, List.map_append, pushes, List.map_nil, List.nil_append] at *
     rw [List.perm_iff_count] at *
     intro a; have := hp1 a; have := hp2 a
     simp only [List.count_append] at *; omega
   · rw [specRun_append, specRun_append, hrun1]
     simp only [Option.bind_some, hrun2]
     exact specRun_pushes _ _
-  · simp only [handleIdx]
-    refine List.Perm.trans ?_ hfin.symm
-    have e : heapPart (pass2 (pass1 h ops).1 (pass1 h ops).2.2).1 ++ pend (pass2 (pass1 h ops).1 (pass1 h ops).2.2).1
-        = (pass2 (pass1 h ops).1 (pass1 h ops).2.2).1.data := List.take_append_drop _ _
+  · refine List.Perm.trans ?_ hfin.symm
+    have e : heapPart (pass2 (pass1 h ops).heap (pass1 h ops).dfr).heap ++ pend (pass2 (pass1 h ops).heap (pass1 h ops).dfr).heap
+        = (pass2 (pass1 h ops).heap (pass1 h ops).dfr).heap.data := List.take_append_drop _ _
     rw [← e]
     exact (List.perm_append_comm).trans ((hsim2.2).append (List.reverse_perm _))
 
 /-- linearization over identified operations -/
-theorem handleIdx_lin (h : Heap) (ops : List (Op × Nat)) (w : WF h) (hf : h.mark = h.data.length) :
-    ∃ (lin : List Ev) (sf : List Nat), lin.Perm (handleIdx h ops).2 ∧ specRun h.data (strip lin) = some sf ∧
-      sf.Perm (handleIdx h ops).1.data := by
-  obtain ⟨lin, sf, hp, hrun, hfin⟩ := handleIdx_lin_strip h ops w hf
+theorem handleIdx_lin (h : Heap) (ops : List (Op × Nat)) (hnt : NoPopThrow ops) (w : WF h) (hf : h.mark = h.data.length) :
+    ∃ (lin : List Ev) (sf : List Nat), lin.Perm (handleIdx h ops).log ∧ specRun h.data (strip lin) = some sf ∧
+      sf.Perm (handleIdx h ops).heap.data := by
+  obtain ⟨lin, sf, hp, hrun, hfin⟩ := handleIdx_lin_strip h ops hnt w hf
   obtain ⟨lin', hl', hm⟩ := perm_of_map_perm (fun e : Ev => (e.op, e.res)) lin _ hp
   exact ⟨lin', sf, hl', by simpa [strip, hm] using hrun, hfin⟩
 
@@ -122,6 +149,39 @@ def popped (l : List (Op × Res)) : List Nat := l.filterMap (fun e => match e wi
 /-- values inserted by successful pushes -/
 def pushed (l : List (Op × Res)) : List Nat := l.filterMap (fun e => match e with | (.push x _, .pushOk) => some x | _ => none)
 
+theorem specStep_cases (s s1 : List Nat) (e : Op × Res) (hs : specStep s e = some s1) :
+    (∃ x, e = (.push x false, .pushOk) ∧ s1 = x :: s) ∨ (∃ x, e = (.push x true, .pushFailed) ∧ s1 = s) ∨
+    (∃ v, e = (.pop false, .popOk v) ∧ v ∈ s ∧ (∀ y ∈ s, y ≤ v) ∧ s1 = s.erase v) ∨
+    (∃ thr, e = (.pop thr, .popFailed) ∧ s = [] ∧ s1 = s) ∨ (e = (.pop true, .exc true) ∧ s ≠ [] ∧ s1 = s) := by
+  unfold specStep at hs
+  split at hs
+  · exact Or.inl ⟨_, rfl, by simpa using hs.symm⟩
+  · exact Or.inr (Or.inl ⟨_, rfl, by simpa using hs.symm⟩)
+  · split at hs
+    · rename_i hc
+      exact Or.inr (Or.inr (Or.inl ⟨_, rfl, hc.1, hc.2, by simpa using hs.symm⟩))
+    · simp at hs
+  · split at hs
+    · rename_i hc
+      exact Or.inr (Or.inr (Or.inr (Or.inl ⟨_, rfl, hc, by simpa using hs.symm⟩)))
+    · simp at hs
+  · split at hs
+    · simp at hs
+    · rename_i hc
+      exact Or.inr (Or.inr (Or.inr (Or.inr ⟨rfl, hc, by simpa using hs.symm⟩)))
+  · simp at hs
+
+theorem specStep_conserves (s s1 : List Nat) (e : Op × Res) (hs : specStep s e = some s1) :
+    (s1 ++ popped [e]).Perm (s ++ pushed [e]) := by
+  rcases specStep_cases s s1 e hs with ⟨x, rfl, rfl⟩ | ⟨x, rfl, rfl⟩ | ⟨v, rfl, hv, _, rfl⟩ | ⟨thr, rfl, _, rfl⟩ | ⟨rfl, _, rfl⟩
+  · simp only [popped, pushed, List.filterMap_cons, List.filterMap_nil, List.append_nil]
+    exact List.perm_append_comm (l₁ := [x])
+  · simp [popped, pushed]
+  · simp only [popped, pushed, List.filterMap_cons, List.filterMap_nil, List.append_nil]
+    exact (List.perm_append_comm).trans (List.perm_cons_erase hv).symm
+  · simp [popped, pushed]
+  · simp [popped, pushed]
+
 theorem specRun_conserves (lin : List (Op × Res)) : ∀ (s sf : List Nat), specRun s lin = some sf →
     (sf ++ popped lin).Perm (s ++ pushed lin) := by
   induction lin with
@@ -129,77 +189,80 @@ theorem specRun_conserves (lin : List (Op × Res)) : ∀ (s sf : List Nat), spec
   | cons e es ih =>
     intro s sf h
     simp only [specRun] at h
-    obtain ⟨op, res⟩ := e
-    cases op with
-    | push x thr =>
-      cases res <;> cases thr <;> simp only [specStep, Option.bind_none, Option.bind_some] at h <;> try exact absurd h (by simp)
-      · have := ih _ _ h
-        simp only [popped, pushed, List.filterMap_cons] at *
-        rw [List.perm_iff_count] at *
-        intro a; have := this a
-        simp only [List.count_append, List.count_cons] at *; omega
-      · have := ih _ _ h
-        simpa [popped, pushed, List.filterMap_cons] using this
-    | pop =>
-      cases res <;> simp only [specStep, Option.bind_none] at h <;> try exact absurd h (by simp)
-      · rename_i v
-        split at h
-        · rename_i hc
-          simp only [Option.bind_some] at h
-          have := ih _ _ h
-          have hc1 := List.perm_cons_erase hc.1
-          simp only [popped, pushed, List.filterMap_cons] at *
-          rw [List.perm_iff_count] at *
-          intro a; have := this a; have := hc1 a
-          simp only [List.count_append, List.count_cons] at *; omega
-        · simp at h
-      · split at h
-        · simp only [Option.bind_some] at h
-          have := ih _ _ h
-          simpa [popped, pushed, List.filterMap_cons] using this
-        · simp at h
+    cases hs : specStep s e with
+    | none => rw [hs] at h; simp at h
+    | some s1 =>
+      rw [hs] at h; simp only [Option.bind_some] at h
+      have h1 := ih _ _ h
+      have h2 := specStep_conserves s s1 e hs
+      have e1 : popped (e :: es) = popped [e] ++ popped es := by simp [popped, List.filterMap_cons]; cases e; split <;> simp
+      have e2 : pushed (e :: es) = pushed [e] ++ pushed es := by simp [pushed, List.filterMap_cons]; cases e; split <;> simp
+      rw [e1, e2]
+      rw [List.perm_iff_count] at *
+      intro a; have := h1 a; have := h2 a
+      simp only [List.count_append] at *; omega
 
-theorem handleIdx_conserves (h : Heap) (ops : List (Op × Nat)) (w : WF h) (hf : h.mark = h.data.length) :
-    ((handleIdx h ops).1.data ++ popped (strip (handleIdx h ops).2)).Perm
-      (h.data ++ pushed (strip (handleIdx h ops).2)) := by
-  obtain ⟨lin, sf, hp, hrun, hfin⟩ := handleIdx_lin_strip h ops w hf
+theorem handleIdx_conserves (h : Heap) (ops : List (Op × Nat)) (hnt : NoPopThrow ops) (w : WF h) (hf : h.mark = h.data.length) :
+    ((handleIdx h ops).heap.data ++ popped (strip (handleIdx h ops).log)).Perm
+      (h.data ++ pushed (strip (handleIdx h ops).log)) := by
+  obtain ⟨lin, sf, hp, hrun, hfin⟩ := handleIdx_lin_strip h ops hnt w hf
   have c := specRun_conserves lin _ _ hrun
-  have p1 : (popped lin).Perm (popped (strip (handleIdx h ops).2)) := hp.filterMap _
-  have p2 : (pushed lin).Perm (pushed (strip (handleIdx h ops).2)) := hp.filterMap _
+  have p1 : (popped lin).Perm (popped (strip (handleIdx h ops).log)) := hp.filterMap _
+  have p2 : (pushed lin).Perm (pushed (strip (handleIdx h ops).log)) := hp.filterMap _
   exact ((hfin.symm.append p1.symm).trans c).trans ((List.Perm.refl _).append p2)
 
 /-! ### a throwing copy is isolated -/
 
-theorem pass1_throw (a b : List (Op × Nat)) (x i : Nat) : ∀ h : Heap,
-    (pass1 h (a ++ (.push x true, i) :: b)).1 = (pass1 h (a ++ b)).1 ∧
-    (pass1 h (a ++ (.push x true, i) :: b)).2.2 = (pass1 h (a ++ b)).2.2 ∧
-    (pass1 h (a ++ (.push x true, i) :: b)).2.1.Perm (⟨i, .push x true, .pushFailed⟩ :: (pass1 h (a ++ b)).2.1) := by
+theorem pass1_throw (a b : List (Op × Nat)) (x i : Nat) : ∀ h : Heap, (pass1 h (a ++ b)).abort = none →
+    (pass1 h (a ++ (.push x true, i) :: b)).heap = (pass1 h (a ++ b)).heap ∧
+    (pass1 h (a ++ (.push x true, i) :: b)).dfr = (pass1 h (a ++ b)).dfr ∧
+    (pass1 h (a ++ (.push x true, i) :: b)).abort = none ∧
+    (pass1 h (a ++ (.push x true, i) :: b)).log.Perm (⟨i, .push x true, .pushFailed⟩ :: (pass1 h (a ++ b)).log) := by
   induction a with
-  | nil => intro h; simp [pass1]
+  | nil => intro h hab; simp only [List.nil_append] at hab; simp [pass1, hab]
   | cons o rest ih =>
     intro h
     obtain ⟨op, j⟩ := o
     cases op with
-    | pop =>
+    | pop thr =>
       simp only [List.cons_append, pass1]
       split
-      · obtain ⟨e1, e2, e3⟩ := ih { h with data := h.data.dropLast }
-        exact ⟨e1, e2, (e3.cons _).trans (List.Perm.swap _ _ _)⟩
-      · obtain ⟨e1, e2, e3⟩ := ih h
-        exact ⟨e1, by rw [e2], e3⟩
+      · split
+        · split
+          · intro hab
+            obtain ⟨e1, e2, e3, e4⟩ := ih h hab
+            exact ⟨e1, e2, e3, (e4.cons _).trans (List.Perm.swap _ _ _)⟩
+          · intro hab; simp at hab
+        · intro hab
+          obtain ⟨e1, e2, e3, e4⟩ := ih { h with data := h.data.dropLast } hab
+          exact ⟨e1, e2, e3, (e4.cons _).trans (List.Perm.swap _ _ _)⟩
+      · intro hab
+        obtain ⟨e1, e2, e3, e4⟩ := ih h hab
+        exact ⟨e1, by simp [e2], e3, e4⟩
     | push y thr =>
       simp only [List.cons_append, pass1]
       split
-      · obtain ⟨e1, e2, e3⟩ := ih h
-        exact ⟨e1, e2, (e3.cons _).trans (List.Perm.swap _ _ _)⟩
-      · obtain ⟨e1, e2, e3⟩ := ih { h with data := h.data ++ [y] }
-        exact ⟨e1, e2, (e3.cons _).trans (List.Perm.swap _ _ _)⟩
+      · intro hab
+        obtain ⟨e1, e2, e3, e4⟩ := ih h hab
+        exact ⟨e1, e2, e3, (e4.cons _).trans (List.Perm.swap _ _ _)⟩
+      · intro hab
+        obtain ⟨e1, e2, e3, e4⟩ := ih { h with data := h.data ++ [y] } hab
+        exact ⟨e1, e2, e3, (e4.cons _).trans (List.Perm.swap _ _ _)⟩
 
-theorem handleIdx_throw (h : Heap) (a b : List (Op × Nat)) (x i : Nat) :
-    (handleIdx h (a ++ (.push x true, i) :: b)).1 = (handleIdx h (a ++ b)).1 ∧
-    (handleIdx h (a ++ (.push x true, i) :: b)).2.Perm (⟨i, .push x true, .pushFailed⟩ :: (handleIdx h (a ++ b)).2) := by
-  obtain ⟨e1, e2, e3⟩ := pass1_throw a b x i h
-  simp only [handleIdx, e1, e2]
-  exact ⟨trivial, (e3.append_right _)⟩
+theorem handleIdx_throw (h : Heap) (a b : List (Op × Nat)) (x i : Nat) (hab : (handleIdx h (a ++ b)).abort = none) :
+    (handleIdx h (a ++ (.push x true, i) :: b)).heap = (handleIdx h (a ++ b)).heap ∧
+    (handleIdx h (a ++ (.push x true, i) :: b)).abort = none ∧
+    (handleIdx h (a ++ (.push x true, i) :: b)).log.Perm (⟨i, .push x true, .pushFailed⟩ :: (handleIdx h (a ++ b)).log) := by
+  have hab1 : (pass1 h (a ++ b)).abort = none := by
+    cases hc : (pass1 h (a ++ b)).abort with
+    | none => rfl
+    | some k => simp [handleIdx, hc] at hab
+  obtain ⟨e1, e2, e3, e4⟩ := pass1_throw a b x i h hab1
+  have hab2 : (pass2 (pass1 h (a ++ b)).heap (pass1 h (a ++ b)).dfr).abort = none := by
+    cases hc : (pass2 (pass1 h (a ++ b)).heap (pass1 h (a ++ b)).dfr).abort with
+    | none => rfl
+    | some k => simp [handleIdx, hab1, hc] at hab
+  simp only [handleIdx, e1, e2, e3, hab1, hab2]
+  exact ⟨trivial, trivial, (e4.append_right _)⟩
 
 end TbbVerif.C13
